@@ -8,6 +8,20 @@ import threading
 sys.path.insert(0, sys.argv[4] if len(sys.argv) > 4 else "/verif")
 
 
+def scribble(*graphs):
+    """what a caller may do with a result it owns: relabel an isotope, mark atoms, delete the bonds.  If the library
+    hands the same object out again (a cache of mutable results), a later call shows the scribbling."""
+    for g in graphs:
+        try:
+            for n in g.nodes:
+                g.nodes[n]["mass"] = 999
+                g.nodes[n]["explored"] = True
+                g.nodes[n]["partition"] = 77
+            g.remove_edges_from(list(g.edges))
+        except Exception:
+            pass
+
+
 def run_op(op):
     import networkx as nx
     from tucan.io import graph_from_molfile_text, graph_to_molfile, graph_from_tucan
@@ -19,17 +33,34 @@ def run_op(op):
         if kind == "tucan_of_molfile":
             g = graph_from_molfile_text(arg)
             c = canonicalize_molecule(g)
-            return serialize_molecule(c) + " || " + P.show_graph(c)
+            r = serialize_molecule(c) + " || " + P.show_graph(c)
+            scribble(g, c)
+            return r
         if kind == "read":
-            return P.show_graph(graph_from_molfile_text(arg))
+            g = graph_from_molfile_text(arg)
+            r = P.show_graph(g)
+            scribble(g)
+            return r
         if kind == "parse":
-            return P.show_graph(graph_from_tucan(arg))
+            g = graph_from_tucan(arg)
+            r = P.show_graph(g)
+            try:
+                serialize_molecule(g)      # a library call that marks its argument
+            except Exception:
+                pass
+            scribble(g)
+            return r
         if kind == "norm":
-            return serialize_molecule(canonicalize_molecule(graph_from_tucan(arg)))
+            g = graph_from_tucan(arg)
+            c = canonicalize_molecule(g)
+            r = serialize_molecule(c)
+            scribble(g, c)
+            return r
         if kind == "write":
             g = graph_from_tucan(arg)
             lines = graph_to_molfile(g).split("\n")
             lines[1] = "<HEADER>"
+            scribble(g)
             return "\n".join(lines)
         return "?"
     except Exception as e:
@@ -47,6 +78,13 @@ def main():
         random.Random(oseed).shuffle(idx)
         for i in idx:
             res[i] = run_op(ops[i])
+        # every operation once more, in another order: the second result must equal the first
+        again = list(idx)
+        random.Random(oseed + 1000).shuffle(again)
+        for i in again:
+            r2 = run_op(ops[i])
+            if r2 != res[i]:
+                res[i] = "DIVERGED-WITHIN-PROCESS " + json.dumps([res[i], r2])[:2000]
     else:
         sys.setswitchinterval(1e-6)
         nthreads = 8
